@@ -300,7 +300,8 @@ void orc_c08_delivery(Delivery &d) {
 }
 
 void orc_c08_edge(int slot, int from, int to) {
-    if (!on("C08")) return;
+    // (also decided in the C13 campaign: what a module holds back - low-priority events, a partial batch - is handed over before a pill stops it)
+    if (!on("C08") && !on("C13")) return;
     Slot &s = W->slots[slot];
     if (from == ST_RUNNING && to == ST_STOPPED && s.pills_pending > 0 && !s.pill_wildcard && !frame_on_stack("stop", slot) && !frame_on_stack("dereg", slot) &&
         !frame_on_stack_any("ctx_dereg") && !s.start_refused_pending && (frame_on_stack_any("loop") || frame_on_stack_any("dispatch"))) {
@@ -314,6 +315,7 @@ void orc_c08_edge(int slot, int from, int to) {
             if (!has(sd.eligible, slot) || has(sd.overflow, slot)) continue;
             if (sd.delivered.count(slot) || sd.dead.count(slot) || sd.unknown.count(slot)) continue;   // delivered, or (maybe) discarded at an earlier loop end
             if (sd.gseq <= s.c08_last_reset_gseq) continue;     // discarded by an earlier stop
+            if (on("C13")) VIOL("C13", "C13:event-lost:pill", "poison pill (event %lu) stopped module slot %d (batch size %zu, timeout %lu ns) before message #%ld (sent earlier, at event %lu) was handed over: what the module held back was lost", (unsigned long)pill_gseq, slot, s.batch_size, (unsigned long)s.batch_timeout, sd.id, (unsigned long)sd.gseq);
             VIOL("C08", "C08:pill-overtook-message", "poison pill (event %lu) stopped module slot %d before message #%ld (sent earlier, at event %lu) was delivered", (unsigned long)pill_gseq, slot, sd.id, (unsigned long)sd.gseq);
         }
     }
